@@ -93,6 +93,47 @@ def with_failures(files, fails):
     return out
 
 
+FIX_KINDS = ("replace", "delete", "split", "move")
+
+
+def dir_version(good, fails, fixkinds, nfixed):
+    """The directory after the first `nfixed` failing statements (in file order) have been fixed, each by
+    its own kind of fix: replace it by the good statement, delete it, split it into two good statements,
+    or move the good statement to a new later file. The remaining ones are still failing.
+    Returns (files, next_fail) with next_fail = (file index, statement index IN THIS VERSION, kind) | None."""
+    fails = sorted(tuple(x) for x in fails or [])
+    at = {(f, s): i for i, (f, s, _) in enumerate(fails)}
+    out, moved, nxt = [], [], None
+    for fi, f in enumerate(good):
+        g = copy.deepcopy(f)
+        stmts = []
+        for si, st in enumerate(f["stmts"]):
+            i = at.get((fi, si))
+            if i is None:
+                stmts.append(st)
+            elif i >= nfixed:
+                if i == nfixed:
+                    nxt = (fi, len(stmts), fails[i][2])
+                stmts.append(bad_stmt(fails[i][2], fi, si))
+            else:
+                k = (fixkinds or [])[i] if i < len(fixkinds or []) else "replace"
+                if k == "replace":
+                    stmts.append(st)
+                elif k == "split":
+                    stmts += [st, "CREATE TABLE x_f%ds%d(id INTEGER PRIMARY KEY)" % (fi + 1, si + 1)]
+                elif k == "move":
+                    moved.append(st)
+                elif k != "delete":
+                    raise ValueError(k)
+        g["stmts"] = stmts
+        g.pop("kinds", None)
+        out.append(g)
+    for st in moved:
+        n = len(out) + 1
+        out.append({"name": "%d_f%d.sql" % (n, n), "version": str(n), "desc": "f%d" % n, "directive": None, "stmts": [st]})
+    return out, nxt
+
+
 def either(*hs):
     """Set of acceptable hash values (a resumed revision may carry the hash of any version of the file it
     was attempted with; which one it finally carries is judged against the clean run at the end)."""
@@ -146,12 +187,13 @@ class St:
         return {"done": self.done, "partial": self.partial, "revs": self.revs, "persisted_statements": len(self.stmts)}
 
 
-class Expect:
+class _Expect:
     def __init__(self, fails, state, why, bug=None):
         self.fails = fails  # must the command exit non-zero?
         self.state = state  # St the property promises
         self.why = why
         self.bug = bug  # (key, St) state that a pre-registered defect class would leave instead
+        self.errkept = None  # version of a resumed revision that completes without executing any statement
 
 
 def _rev_done(f, sums):
@@ -169,6 +211,13 @@ def expect_apply(files, sums, st, mode, count, fail, fk_on):
     Per-file directive replaces the global mode for that file (not allowed under the all mode: the
     command is rejected, and all mode promises the state before the command)."""
     before = st.copy()
+    errkept = None
+
+    def Expect(*a):  # noqa: N802 - every result carries the errkept marker known so far
+        e = _Expect(*a)
+        e.errkept = errkept
+        return e
+
     pend = list(range(st.done, len(files)))
     if count is not None:
         pend = pend[:count]
@@ -218,6 +267,8 @@ def expect_apply(files, sums, st, mode, count, fail, fk_on):
         cur.stmts = cur.stmts + tentative
         cur.done, cur.partial = fi + 1, 0
         old = cur.revs.get(f["version"])
+        if old is not None and old.get("error") and start >= len(f["stmts"]):
+            errkept = f["version"]
         cur.revs[f["version"]] = _rev_done(f, sums)
         if old is not None:
             # a resumed file keeps the row it had; which file hash it then carries is checked at the end
@@ -342,6 +393,24 @@ def mask_hash(d, version):
     for r in d["revisions"]:
         if r["version"] == version:
             r["hash"] = "<hash>"
+    return d
+
+
+REV_COLS = ("version", "description", "type", "applied", "total", "error", "error_stmt", "hash", "partial_hashes")
+
+
+def mask_cols(d, version, cols):
+    """Copy of a (projected) dump with some columns of one revision projected away; used only after the
+    narrowly pre-registered class that concerns exactly these columns has been reported."""
+    d = copy.deepcopy(norm(d))
+    for r in d["tables"].get(REV, []):
+        if r and r[0] == "'%s'" % version and len(r) == len(REV_COLS):
+            for c in cols:
+                r[REV_COLS.index(c)] = "<%s>" % c
+    for r in d["revisions"]:
+        if r["version"] == version:
+            for c in cols:
+                r[c] = "<%s>" % c
     return d
 
 
